@@ -415,6 +415,106 @@ def history_cases(chk, rng):
                 return chk.fail('post-touches-unit', f"[{layout}] the caller's incoming profile was changed (classifiers now {sorted(p.classifiers)})", data)
 
 
+def nested_cases(chk, rng, n):
+    """processors that are units of classes with registrations of their own (also of the class the factory is registered on): real Transport subclasses,
+    factories answering by the nesting depth of the unit they are asked for; observed: every (factory, depth) asked in order, the marks on the outer unit's
+    in profile and on the returned profile - compared with ProcNest.nsolve by vm_compute"""
+    from pyroll.core import Transport, Profile
+    rendered, described = [], []
+    for _ in range(n):
+        ncls = rng.randint(1, 4)
+        bases = [None] + [rng.randrange(i) for i in range(1, ncls)]          # a tree of classes
+        asked, per_unit = [], {}
+
+        class Marked(Transport):
+            def init_solve(self, in_profile):
+                super().init_solve(in_profile)                                # the pre-processors have run; now the unit's own work leaves its mark
+                self.in_profile.marks = tuple(self.in_profile.marks) + (self.mark,)
+                self.out_profile.marks = self.in_profile.marks                # (the out profile was set up from the in profile a moment ago)
+        K = []
+        for i in range(ncls):
+            K.append(type(f"N{i}", (Marked if bases[i] is None else K[bases[i]],), {}))
+
+        def mro(i):
+            return [i] + (mro(bases[i]) if bases[i] is not None else [])
+        facs, nmark = [], [10]
+        for fid in range(1, rng.randint(2, 5) + 1):
+            table = {}
+            for d in range(3):
+                if rng.random() < (0.55 if d == 0 else 0.4 if d == 1 else 0.25):
+                    nmark[0] += 1
+                    table[d] = (rng.randrange(ncls), nmark[0])
+
+            def make(fid=fid, table=table):
+                def factory(unit):
+                    d = int(unit.label[1:])
+                    asked.append((fid, d))
+                    per_unit.setdefault(id(unit), (unit, []))[1].append(fid)
+                    if d not in table:
+                        return None
+                    u = K[table[d][0]](label=f"d{d + 1}", duration=0)
+                    u.mark = table[d][1]
+                    per_unit.setdefault(id(u), (u, []))
+                    return u
+                return factory
+            facs.append((fid, table, make()))
+        pre = {i: [] for i in range(ncls)}
+        post = {i: [] for i in range(ncls)}
+        for fid, table, f in facs:
+            for _k in range(rng.choice([1, 1, 2])):                           # one factory object may be registered in two places
+                c, where = rng.randrange(ncls), rng.choice(['pre', 'pre', 'post'])
+                (pre if where == 'pre' else post)[c].append(fid)
+                (K[c].pre_processors if where == 'pre' else K[c].post_processors).append(f)
+        c0 = rng.randrange(ncls)
+        u = K[c0](label="d0", duration=1)
+        u.mark = 1
+        ip = Profile.round(radius=10e-3, temperature=1273.15, strain=0, material="steel", length=1, t=0, marks=())
+        chk.cov['evaluations'] += 1
+        desc = {'classes': bases, 'solved': c0, 'factories': {fid: {d: list(v) for d, v in table.items()} for fid, table, _ in facs}, 'pre': pre, 'post': post}
+        try:
+            ret = u.solve(ip)
+        except Exception as e:      # noqa
+            chk.fail('processor-nesting', f"nested processors {desc}: solve raises {type(e).__name__}: {str(e)[:120]}", desc)
+            return
+        inm, retm = list(u.in_profile.marks), list(ret.marks)
+        if 1 not in inm or retm[:len(inm)] != inm:
+            chk.fail('processor-nesting', f"nested processors {desc}: in profile carries {inm}, returned profile {retm}", desc)
+            return
+        pm, qm = inm[:-1], retm[len(inm):]
+        # the property stated directly: the unit itself (depth 0) is asked by every factory of its walk once, bases first, pre then post
+        per_unit.setdefault(id(u), (u, []))
+        for unit, own in per_unit.values():
+            ci = K.index(type(unit))
+            want = [f for k in reversed(mro(ci)) for f in pre[k]] + [f for k in reversed(mro(ci)) for f in post[k]]
+            if own != want and not chk.failures:
+                chk.fail('processor-nesting', f"nested processors {desc}: for the unit {unit.label!r} of class {ci} ({'the solved unit' if unit is u else 'a processor unit'}) the "
+                         f"factories asked are {own}, the walk over its class gives {want}", desc)
+        fac_txt = {fid: "{| nf_id := %d; nf_ans := [%s] |}" % (fid, "; ".join(f"({d}, AProc {c} {m})" for d, (c, m) in sorted(table.items()))) for fid, table, _ in facs}
+        st = ("{| nmros := [%s]; npre := [%s]; npost := [%s] |}" % (
+            "; ".join(f"({i}, {cl(mro(i))})" for i in range(ncls)),
+            "; ".join(f"({i}, [{'; '.join(fac_txt[f] for f in pre[i])}])" for i in range(ncls)),
+            "; ".join(f"({i}, [{'; '.join(fac_txt[f] for f in post[i])}])" for i in range(ncls))))
+        rendered.append(f"({st}, {c0}, ([{'; '.join(f'({a}, {b})' for a, b in asked)}], {cl(pm)}, {cl(qm)}))")
+        described.append(desc)
+    chk.coq.add_text("ncases.v", "From PyrollLib Require Import ProcNest.\nOpen Scope nat_scope.\nDefinition cases : list ncase := [\n" + ";\n".join(rendered) +
+                     "].\nEval vm_compute in (nmismatches cases 0).\n")
+    r = chk.coq.compile("ncases.v", timeout=600)
+    bad = []
+    if not r['ok']:
+        chk.unshown_add("correspondence:ncases.v", r['err'][-600:])
+    else:
+        m = re.search(r'=\s*\[(.*?)\]\s*:\s*list nat', r['out'], re.S)
+        bad = [int(x) for x in re.findall(r'\d+', m.group(1))] if m else []
+        if not m:
+            chk.unshown_add("correspondence:ncases.v", "unreadable result")
+    chk.x_stats['correspondence_nested'] = {'cases': len(rendered), 'disagreements': len(bad)}
+    for i in bad[:3]:
+        chk.unshown_add(f"correspondence:nested-case{i}", "model and implementation disagree on " + json.dumps(described[i], default=str)[:800])
+    if bad and not chk.failures:
+        chk.fail('deviation', "nested processors: the implementation deviates from the verified model (ProcNest.nsolve) on " + json.dumps(described[bad[0]], default=str)[:600],
+                 {'nested': described[bad[0]]})
+
+
 def run(chk):
     chk.coq.add_prop_file('C18.v')
     chk.coq.compile('C18.v', is_props=True, timeout=300)
@@ -470,6 +570,8 @@ def run(chk):
         chk.unshown_add(f"correspondence:case{i}", "model and implementation disagree on " + json.dumps(all_ops[i], default=str)[:1000])
     if bad and not chk.failures:
         chk.fail('deviation', "implementation deviates from the verified processor model", {'history': all_ops[bad[0]]})
+    if not chk.failures:
+        nested_cases(chk, random.Random(chk.seed * 18 + 1802), 120 if not chk.thorough else 1200)
     if not chk.failures:
         history_cases(chk, random.Random(chk.seed * 18 + 1801))
     chk.cov['rule'] = ("seeded unit class hierarchies (chains, diamonds, trees, with non-unit mixins) x interleavings of class "
